@@ -21,6 +21,10 @@ import (
 	"github.com/named-data/ndnd/std/utils"
 )
 
+// maxFragments is the largest FragCount accepted for reassembly
+// (the default limit of NFD's LpReassembler).
+const maxFragments = 400
+
 const lpPacketOverhead = 1 + 3
 const fragmentOverhead = 1 + 3
 
@@ -406,10 +410,20 @@ func (l *NDNLPLinkService) reassemblePacket(
 	fragIndex uint64,
 	fragCount uint64,
 ) enc.Wire {
-	_, hasSequence := l.partialMessageStore[baseSequence]
+	// FragIndex and FragCount come from the peer: drop what cannot be a fragment
+	// before sizing or indexing anything with them
+	if fragCount == 0 || fragCount > maxFragments || fragIndex >= fragCount {
+		core.LogWarn(l, "Received fragment with invalid FragIndex=", fragIndex, " FragCount=", fragCount, " - DROP")
+		return nil
+	}
+
+	partialMessage, hasSequence := l.partialMessageStore[baseSequence]
 	if !hasSequence {
 		// Create map entry
 		l.partialMessageStore[baseSequence] = make([][]byte, fragCount)
+	} else if uint64(len(partialMessage)) != fragCount {
+		core.LogWarn(l, "Received fragment whose FragCount=", fragCount, " differs from the partial message - DROP")
+		return nil
 	}
 
 	// Insert into PartialMessageStore
